@@ -84,12 +84,14 @@ def read_stream(resp, max_chunks=5000):
     """body text of a (possibly streamed) response; a stream that does not end within max_chunks is an error, not a hang"""
     parts = []
     n = 0
-    for chunk in resp.iter_encoded():
-        parts.append(chunk)
-        n += 1
-        if n > max_chunks:
-            resp.close()
-            raise StreamOverflow("response stream did not end within %d chunks" % max_chunks)
+    try:
+        for chunk in resp.iter_encoded():
+            parts.append(chunk)
+            n += 1
+            if n > max_chunks:
+                raise StreamOverflow("response stream did not end within %d chunks" % max_chunks)
+    finally:
+        resp.close()       # a WSGI server always closes the response iterable: the close callbacks run
     txt = b"".join(parts).decode("utf-8")
     try:
         return json.loads(txt)
